@@ -14,7 +14,114 @@ ASSUMPTIONS = ["expressions come from the token-level grammar Expr: a depth-0 '<
 
 
 def correspond(ctx):
-    return c13.correspond(ctx, kinds=(2, 3))
+    corr = c13.correspond(ctx, kinds=(2, 3))
+    correspond_requires(ctx, corr)
+    return corr
+
+
+# ---------------------------------------------------------------------------
+# requires-clauses: extracted requires_clause (Parse/Requires.v) vs the real _parse_requires on the same token lists
+
+REQ_PIECES = [['C'], ['C', '<', 'T', '>'], ['is_small', '<', 'T', ',', '4', '>'], ['decltype', '(', 'x', ')'], ['K'], ['A', '<', 'B', '<', 'T', '>', '>'],
+              ['decltype', '(', 'f', '(', 'a', ',', 'b', ')', ')'], ['V', '<', '(', 'a', '>', 'b', ')', '>']]
+REQ_PARENS = [['(', 'sizeof', '(', 'T', ')', '>', '1', ')'], ['(', 'B', '<', 'T', '>', ')'], ['(', 'a', ',', 'b', ')'], ['(', ')'], ['(', 'x', '[', '1', ']', '{', '}', ')']]
+REQ_OPS = [['&&'], ['||'], ['&&'], ['||'], ['=', '='], ['!', '='], ['<', '='], ['>', '='], ['+'], ['-'], ['*'], ['%'], ['^'], ['|'], ['&'], ['<<'], ['>'], ['>', '>']]
+REQ_STOPS = [['void', 'f', '(', ')', ';'], [';'], ['{', '}'], ['=', 'delete', ';'], ['=', 'default', ';'], ['=', '0', ';'], ['int', 'x', ';'], ['const', 'T', '&', 'g', '(', ')', ';'],
+             ['->', 'int', ';'], ['Foo', 'h', '(', ')', ';'], ['static', 'int', 'y', ';'], ['override', ';'], [',', 'x']]
+REQ_WORDS = ['C', 'T', '(', ')', '<', '>', '::', '&&', '||', '=', '!', 'decltype', 'requires', '{', '}', ';', 'void', '[', ']', '3', ',', '+']
+
+
+def gen_requires(rng):
+    """(tokens behind `requires`, expected value or None)"""
+    if rng.random() < 0.12:
+        ps = rng.choice([[], ['T', 't'], ['T', 'a', ',', 'U', 'b']])
+        body = rng.choice([[], ['t', '.', 'x', ';'], ['{', 'a', '+', 'b', '}', '->', 'C', '<', 'T', '>', ';'], ['typename', 'T', '::', 'type', ';']])
+        toks = ['requires', '('] + ps + [')', '{'] + body + ['}']
+        return toks + list(rng.choice(REQ_STOPS)), tuple(toks)
+
+    def primary():
+        if rng.random() < 0.3:
+            p = list(rng.choice(REQ_PARENS))
+            return list(p), list(p), True
+        written, value = [], []
+        if rng.random() < 0.15:
+            written.append('::'); value.append('::')
+        n = rng.choice([1, 1, 1, 2, 3])
+        last = None
+        for i in range(n):
+            pc = list(rng.choice(REQ_PIECES))
+            if i:
+                written.append('::')        # not reported (F29): the model mirrors the code
+            written += pc; value += pc
+            last = pc
+        return written, value, last[-1] == '>'
+    w, v, closed = primary()
+    for _ in range(rng.choice([0, 0, 1, 1, 2, 3])):
+        op = list(rng.choice(REQ_OPS))
+        while not closed and op[0] in ('<', '<<'):
+            op = list(rng.choice(REQ_OPS))       # a '<' behind a bare name opens template arguments (inherent ambiguity)
+        w2, v2, closed = primary()
+        w += op + w2; v += op + v2
+    stop = list(rng.choice(REQ_STOPS))
+    return w + stop, tuple(v)
+
+
+def real_requires(strs):
+    from harness import decl
+    toks = [impl.mk_tok(decl.tok_type(s), s) for s in strs]
+    p = impl.parser_over(toks)
+    try:
+        v = p._parse_requires(impl.mk_tok('requires', 'requires'))
+    except (impl.CxxParseError, EOFError):
+        return ('err',)
+    except (AssertionError, IndexError, KeyError, AttributeError, TypeError, RecursionError):
+        return ('other',)
+    return ('ok', tuple(t.value for t in v.tokens), len(p.lex.tokbuf))
+
+
+def correspond_requires(ctx, corr):
+    from harness import decl
+    from harness.props import c02
+    from harness.core import run_driver
+    rng = ctx.rng
+    cases = []
+    for _ in range(ctx.scale(1500, 30000)):
+        toks, exp = gen_requires(rng)
+        cases.append((toks, exp, 'requires-valid'))
+        r = rng.random()
+        if r < 0.3:
+            cases.append((c02.mutate(rng, toks) or [';'], None, 'requires-mutated'))
+        elif r < 0.4:
+            cases.append(([rng.choice(REQ_WORDS) for _ in range(rng.choice([1, 2, 3, 5, 8]))], None, 'requires-random'))
+    lines, nms = [], []
+    for toks, _, _ in cases:
+        names = decl.Names()
+        lines.append([107] + decl.enc_tokens(toks, names))
+        nms.append(names)
+    outs = run_driver(lines)
+    for (toks, exp, kind), o, names in zip(cases, outs, nms):
+        corr.cases += 1
+        if o[0] == 0:
+            n = o[2]
+            m = ('ok', tuple(names.rev[o[3 + 2 * j + 1]] if o[3 + 2 * j + 1] else impl.TT[o[3 + 2 * j]] for j in range(n)), o[1])
+        else:
+            m = ('err', o[1])
+        r = real_requires(toks)
+        k = kind + ":" + (m[0] if m[0] == 'ok' else 'err%d' % m[1]) + "/" + r[0]
+        corr.dist[k] = corr.dist.get(k, 0) + 1
+        msg = None
+        if r[0] != 'other':
+            if m[0] == 'err' and m[1] == 9:
+                msg = "model ran out of budget"
+            elif (m[0] == 'ok') != (r[0] == 'ok'):
+                msg = "model %s, implementation %s" % (m[:2], r[:2])
+            elif m[0] == 'ok' and m != r:
+                msg = "model %s, implementation %s" % (m, r)
+        if msg is None and exp is not None and (m[0] != 'ok' or m[1] != exp):
+            msg = "model does not decode the printed requires-clause: %s, written value %s" % (m, exp)
+        if msg:
+            corr.disagreements.append(dict(case=dict(kind='corr-requires', tokens=toks), model=str(m)[:300], impl=str(r)[:300],
+                                           what="requires %s: %s" % (' '.join(toks), msg)))
 
 
 _LEX_CACHE = {}
